@@ -608,3 +608,19 @@ fn u8_strong_count_raw_adopted() {
     kani::assert(unsafe { GROUP_CALLS } == 1, "U8.decrement_strong_count_adopted.runs_the_reachability_trace_once");
     core::mem::forget(a);
 }
+
+/// downgrade / Weak::clone on an object whose value is already destroyed (handles held by destructors
+/// during a collection): the new Weak still owns a weak count, for every counter value
+#[kani::proof]
+fn u7_downgrade_of_dead_object_counts() {
+    let a = Rc::new(0u8);
+    let (s, w) = any_counts();
+    kani::assume(s == 0 || s == MAX);
+    kani::assume(w != 0 && w < MAX - 1);
+    set_counts(&a, s, w);
+    let d = Rc::downgrade(&a);
+    kani::assert(d.ptr == a.ptr && a.inner().weak() == w + 1 && a.inner().strong() == s, "U7.downgrade_dead.weak_plus_one_only");
+    let d2 = d.clone();
+    kani::assert(d2.ptr == a.ptr && a.inner().weak() == w + 2 && a.inner().strong() == s, "U7.weak_clone_dead.weak_plus_one_only");
+    core::mem::forget((d, d2, a));
+}
